@@ -56,6 +56,29 @@ PROPS = {
                       "and makes this check UNDECIDED (exit 2), not a C07 alarm.",
         "technique": "Verus contracts + loop invariants on extracted real functions; inductive lemmas over sequence specs",
     },
+    "C08": {
+        "units": ["compact"],
+        "rlimit": 30,
+        "level": "proof",
+        "assumptions": STD_ASSUME + [
+            "the three std-collection statements of compact() (HashSet collect, into_iter().collect(), sort_unstable) are replaced "
+            "by stubs with assumed contracts (rule R5): set equality, no duplicates, sorted permutation, Vec<u64> length <= isize::MAX/8",
+            "order / multiplicity independence: proved that the working list after the sort is the unique strictly sorted enumeration "
+            "of the input SET; that the rest of compact() is a deterministic function of that list (it never reads `cells` again) is "
+            "by determinism of safe Rust, not a proof obligation",
+            "no-duplicates is proved for non-overlapping inputs only (invariant: the working list stays an antichain); for overlapping "
+            "inputs containing a base cell and its own quintants it is false (known finding F2)",
+        ],
+        "search_ops": ["compact_cover", "compact_total"],
+        "level_text": "Unbounded proof (Verus/Z3) on the real compact(), fixed point and scan loops closed by invariants over an abstract "
+                      "covered-set: for every list of valid cells the result is Ok, consists of canonical IDs no finer than the inputs, and "
+                      "covers exactly the same cells at every resolution at least as fine as all inputs (each merge is shown to replace "
+                      "exactly the complete set of children of the parent it inserts); for non-overlapping inputs the result has no "
+                      "duplicates; the working list after dedup+sort depends only on the input set.",
+        "level_note": "std HashSet/sort under assumed contracts; callee contracts (get_resolution, is_first_child, get_stride, "
+                      "cell_to_parent) verified in the same unit; F2 is replayed on the real code each run as a known finding.",
+        "technique": "Verus contract + loop invariants (abstract covered set, antichain) on the extracted real compact()",
+    },
     "C09": {
         "units": ["compact"],
         "rlimit": 30,
@@ -136,7 +159,9 @@ TRUSTED = {
     "tree": ["external_body err_msg", "external_body get_origins", "assume_specification usize::pow",
              "assume_specification u64::pow", "assume_specification u64::saturating_pow"],
     "compact": ["external_body err_msg", "external_body get_origins", "assume_specification usize::pow",
-                "assume_specification u64::pow", "assume_specification u64::saturating_pow"],
+                "assume_specification u64::pow", "assume_specification u64::saturating_pow",
+                "external_body U64Set", "external_body std_collect_set", "external_body std_set_into_vec",
+                "external_body std_sort_unstable"],
 }
 
 NOT_APPLICABLE = {
@@ -147,7 +172,7 @@ NOT_APPLICABLE = {
     "C15": "projection invertibility to 1e-12 is a numerical-analysis claim about acos/atan2/slerp code; out of reach",
     "C16": "local area preservation needs real analysis of the IVEA formulas over f64 code; out of reach",
     "C19": "authalic series inverse/monotone/odd to 1e-12: Clenshaw sums of sin/cos over f64; out of reach",
-    "C04": "not built yet (tier B)", "C06": "not built yet (tier B)", "C07": "not built yet", "C08": "not built yet",
+    "C04": "not built yet (tier B)", "C06": "not built yet (tier B)", "C07": "not built yet", 
 "C10": "not built yet", "C11": "not built yet (tier C)", "C13": "not built yet (tier B)",
 "C17": "not built yet (tier B)", "C18": "not built yet (tier B)", 
 }
